@@ -235,7 +235,9 @@ func init() {
 			}
 			// external cancellation racing with the endings (a second bar never ends on its own)
 			for _, sp := range endingPrograms("c03c", "auto", -1, 1, endings, 0) {
-				sp.Bars = append(sp.Bars, BarSpec{Total: 9})
+				// (the second bar shares the first one's synchronised column: a bar leaving in the closing renders must
+				// not be waited for)
+				sp.Bars = append(sp.Bars, BarSpec{Total: 9, App: []DecorSpec{{Sync: true, Widths: []int{2, 4}}}})
 				sp.Main = append(sp.Main, Op{K: "add", B: 1})
 				sp.Clients = append(sp.Clients, []Op{{K: "cancel"}})
 				items = append(items, specItems("C03", sp, bound+1, []int{mcrt.StratFIFO, mcrt.StratNewest}, nil, c03Oracle)...)
